@@ -58,7 +58,8 @@ def main(argv=None):
     for f in os.listdir(rep_dir):
         os.unlink(os.path.join(rep_dir, f))
 
-    opts = {'second': tier == 'thorough'}
+    opts = {'second': tier == 'thorough',
+            'select': getattr(prop, 'SELECT', None)}
     results = run.verify_many(prop.FUNCS, prop.MODS, opts)
     # further groups of functions verified against another set of contract
     # modules (hook tables of different abstractions do not mix)
@@ -107,6 +108,8 @@ def main(argv=None):
                 canary_groups.setdefault(grp, []).append(o['status'])
                 continue
             nany += 1
+            if o['kind'] == 'skipped':
+                continue
             want = getattr(prop, 'SELECT', None)
             if want is not None and not want(o['name']):
                 continue
@@ -214,11 +217,32 @@ def main(argv=None):
         seen_known.add(k['id'])
         print('KNOWN-FINDING: property=%s %s' % (pid, k['what']))
     stale = [k for k in known if k['id'] not in seen_known]
+    # one line per obligation: the same clause failing on several paths of
+    # a function is one violation (a replayed one is preferred)
+    grouped = {}
+    for o in violations:
+        k = norm(o['name'])
+        rp0 = (o.get('replay') or {}).get('status') == 'reproduced'
+        if k not in grouped:
+            grouped[k] = [o, 1]
+        else:
+            grouped[k][1] += 1
+            if rp0 and (grouped[k][0].get('replay') or {}).get(
+                    'status') != 'reproduced':
+                grouped[k][0] = o
+    n_paths = len(violations)
+    violations = []
+    for o, cnt in grouped.values():
+        if cnt > 1:
+            o = dict(o)
+            o['paths'] = cnt
+        violations.append(o)
     for i, o in enumerate(violations):
         rp = o.get('replay') or {'status': 'no-replay'}
         path = os.path.join(rep_dir, 'v%02d.json' % i)
         with open(path, 'w') as f:
             json.dump({'property': pid, 'obligation': o['name'],
+                       'failing_paths': o.get('paths', 1),
                        'verifier': o.get('backend'),
                        'counter_model': o.get('model'),
                        'replay': rp,
